@@ -15,13 +15,19 @@ package main
 // the specification must be accepted.
 
 import (
+	"bytes"
 	"fmt"
+	"regexp"
 	"sort"
 	"strconv"
 	"strings"
 
+	kmip "github.com/ovh/kmip-go"
+	"github.com/ovh/kmip-go/ttlv"
+
 	"verifharness/internal/report"
 	"verifharness/internal/rng"
+	"verifharness/internal/tree"
 )
 
 // ---- specification order ---------------------------------------------------------------------------------------------
@@ -839,4 +845,209 @@ func vecViolate(ctx *Ctx, oracle, key, detail, line string) {
 		detail = detail[:900] + "…"
 	}
 	ctx.Res.Violate(report.Violation{Property: "C04", Oracle: oracle, Key: key, Detail: detail, Line: line})
+}
+
+// ---- alternative lexical forms of numbers --------------------------------------------------------------------------
+//
+// A conformant producer may spell a number otherwise than the library's writers (and the vectors) do. The varied
+// message below differs from the vector ONLY in the spelling of numbers, so it denotes the vector's own tree: the
+// typed decoder must give a message whose binary TTLV is byte-identical to that of the vector as shipped — or reject
+// the document (a violation only for the forms marked must, which are in the lexical space of the XML schema type:
+// leading zeros for xsd:int / xsd:long / xsd:unsignedInt, an explicit + for xsd:int / xsd:long, either case of the
+// digits of xsd:hexBinary). Never another value.
+
+type vecForm struct {
+	name string
+	must bool
+	// apply returns the new text of the value of an element of the given type ("" = leave it)
+	apply func(typ, val string) string
+}
+
+var vecDecRe = regexp.MustCompile(`^(-?)([0-9]+)$`)
+
+func vecDecimal(typ, val string, f func(sign, mag string) string) string {
+	if typ != "Integer" && typ != "LongInteger" && typ != "Interval" {
+		return ""
+	}
+	m := vecDecRe.FindStringSubmatch(val)
+	if m == nil {
+		return ""
+	}
+	return f(m[1], m[2])
+}
+
+func vecSwapHexCase(val string) string {
+	if val == strings.ToUpper(val) {
+		return strings.ToLower(val)
+	}
+	return strings.ToUpper(val)
+}
+
+var vecForms = []vecForm{
+	{"dec-zero1", true, func(typ, val string) string {
+		return vecDecimal(typ, val, func(sign, mag string) string { return sign + "0" + mag })
+	}},
+	{"dec-zero3", true, func(typ, val string) string {
+		return vecDecimal(typ, val, func(sign, mag string) string { return sign + "000" + mag })
+	}},
+	{"dec-zero-pad20", true, func(typ, val string) string {
+		return vecDecimal(typ, val, func(sign, mag string) string {
+			if len(mag) >= 20 {
+				return ""
+			}
+			return sign + strings.Repeat("0", 20-len(mag)) + mag
+		})
+	}},
+	{"dec-plus", true, func(typ, val string) string {
+		if typ == "Interval" {
+			return "" // unsigned: whether xsd:unsignedInt admits a sign differs between XSD 1.0 and 1.1
+		}
+		return vecDecimal(typ, val, func(sign, mag string) string {
+			if sign != "" {
+				return ""
+			}
+			return "+" + mag
+		})
+	}},
+	{"dec-plus-zero", true, func(typ, val string) string {
+		if typ == "Interval" {
+			return ""
+		}
+		return vecDecimal(typ, val, func(sign, mag string) string {
+			if sign != "" {
+				return ""
+			}
+			return "+00" + mag
+		})
+	}},
+	{"dec-plus-unsigned", false, func(typ, val string) string {
+		if typ != "Interval" {
+			return ""
+		}
+		return vecDecimal(typ, val, func(sign, mag string) string { return "+" + mag })
+	}},
+	{"dec-space", false, func(typ, val string) string {
+		return vecDecimal(typ, val, func(sign, mag string) string { return " " + sign + mag + " " })
+	}},
+	{"dec-as-hex", false, func(typ, val string) string {
+		return vecDecimal(typ, val, func(sign, mag string) string {
+			bits := 32
+			if typ == "LongInteger" {
+				bits = 64
+			}
+			v, err := strconv.ParseInt(sign+mag, 10, bits)
+			if err != nil {
+				return ""
+			}
+			if bits == 64 {
+				return fmt.Sprintf("0x%016x", uint64(v))
+			}
+			return fmt.Sprintf("0x%08x", uint32(v))
+		})
+	}},
+	{"hex-lower", false, func(typ, val string) string {
+		if (typ == "Enumeration" || typ == "Integer" || typ == "LongInteger" || typ == "Interval") && strings.HasPrefix(val, "0x") && !strings.ContainsAny(val, " |") {
+			return "0x" + vecSwapHexCase(val[2:])
+		}
+		return ""
+	}},
+	{"hexbin-other-case", true, func(typ, val string) string {
+		if typ == "ByteString" || typ == "BigInteger" {
+			return vecSwapHexCase(val)
+		}
+		return ""
+	}},
+}
+
+// vecApplyForm respells every number of the message; nil when the message has none the form applies to.
+func vecApplyForm(msg *xnode, f vecForm) *xnode {
+	c := vecClone(msg)
+	changed := 0
+	vecWalk(c, func(n, parent *xnode, loc vecLoc) {
+		typ := n.Attrs["type"]
+		if typ == "" || typ == "Structure" {
+			return
+		}
+		old, ok := n.Attrs["value"]
+		if !ok {
+			return
+		}
+		if nv := f.apply(typ, old); nv != "" && nv != old {
+			n.Attrs["value"] = nv
+			changed++
+		}
+	})
+	if changed == 0 {
+		return nil
+	}
+	return c
+}
+
+// vectorFormCase: `varied` is the vector `orig` (accepted and reproduced as shipped) with numbers respelled.
+func vectorFormCase(ctx *Ctx, file string, idx int, orig, varied *xnode, form string, must bool) {
+	mode := "may"
+	if must {
+		mode = "must"
+	}
+	line := fmt.Sprintf("#vectorform %s %d %s %s %s %s", file, idx, form, mode, hexUp([]byte(orig.String())), hexUp([]byte(varied.String())))
+	ctx.current = line
+	want, err := orig.toTree(0)
+	if err != nil {
+		return
+	}
+	newMsg := func() any {
+		if orig.Name == "RequestMessage" {
+			return &kmip.RequestMessage{}
+		}
+		return &kmip.ResponseMessage{}
+	}
+	m0, m1 := newMsg(), newMsg()
+	err0, p0 := guard("UnmarshalXML", func() error { return ttlv.UnmarshalXML([]byte(orig.String()), m0) })
+	if err0 != nil || p0 != "" {
+		return // not a message the library accepts as shipped: nothing to compare with
+	}
+	doc := []byte(varied.String())
+	derr, p := guard("UnmarshalXML", func() error { return ttlv.UnmarshalXML(doc, m1) })
+	key := "vectors:lexical-form:" + form
+	outcome := "ok"
+	switch {
+	case p != "":
+		outcome = "panic"
+		ctx.Res.Violate(report.Violation{Property: "C02", Oracle: "no-panic", Key: "xml:decode-panic:" + panicKey(p), Detail: "decoder panicked on a conformance vector with numbers respelled: " + p, Line: line})
+	case derr != nil:
+		outcome = "rejected"
+		if must {
+			vecViolate(ctx, "vector-lexical-form", key+":rejected", "a conformance vector whose numbers are respelled within the lexical space of their schema type ("+form+") is rejected: "+derr.Error()+"; first respelled value: "+vecFirstDiff(orig, varied), line)
+		}
+	default:
+		b0, q0 := guard("MarshalTTLV", func() []byte { return ttlv.MarshalTTLV(m0) })
+		b1, q1 := guard("MarshalTTLV", func() []byte { return ttlv.MarshalTTLV(m1) })
+		bt, terr := tree.Decode(b1)
+		if q0 != "" || q1 != "" || !bytes.Equal(b0, b1) || terr != nil || !tree.Equal(bt, want) {
+			outcome = "different"
+			got := "?"
+			if terr == nil {
+				got = firstDiff(want.Render(), bt.Render())
+			}
+			vecViolate(ctx, "vector-lexical-form", key+":different-value", "a conformance vector whose numbers are only respelled ("+form+") decodes WITHOUT error to a message with another binary TTLV: "+got+"; first respelled value: "+vecFirstDiff(orig, varied), line)
+		}
+	}
+	ctx.Add(line, outcome, true, "")
+	ctx.Res.Count("vector.form." + mode + "." + outcome)
+	ctx.Res.Count("vector.form:" + form + "." + outcome)
+}
+
+// vecFirstDiff names the first element whose value differs between two messages of the same shape.
+func vecFirstDiff(a, b *xnode) string {
+	if a.Attrs["value"] != b.Attrs["value"] {
+		return fmt.Sprintf("<%s type=%q value=%q> written value=%q", a.Name, a.Attrs["type"], a.Attrs["value"], b.Attrs["value"])
+	}
+	for i := range a.Children {
+		if i < len(b.Children) {
+			if m := vecFirstDiff(a.Children[i], b.Children[i]); m != "" {
+				return m
+			}
+		}
+	}
+	return ""
 }
